@@ -206,7 +206,15 @@ let h_validate_row args =
       Bytes.to_string b
   | _ -> "ERR args"
 
+(* profile_wf_report -> "ok" or "msg.field.code msg.field.code ..." *)
+let h_profile_wf _ =
+  if F.profile_wf then "ok"
+  else
+    String.concat " "
+      (List.map (fun ((m, f), c) -> Printf.sprintf "%d.%d.%d" (int_of_n m) (int_of_n f) (int_of_n c)) F.profile_wf_report)
+
 let install (register : string -> (string list -> string) -> unit) =
+  register "profile_wf" h_profile_wf;
   register "decode" h_decode;
   register "validate" h_validate;
   register "validate_row" h_validate_row
